@@ -568,9 +568,11 @@ class Executor:
         return None
 
     # ------------------------------------------------------------------ main loop
-    def run(self, fname, args):
+    def run(self, fname, args, setup=None):
         fn = self.mod.funcs[fname]
         st = State()
+        if setup is not None:
+            args = setup(self, st)
         fr = Frame(fn)
         if len(args) != len(fn.params):
             raise IRUnsupported("argument count for " + fname)
